@@ -20,7 +20,7 @@
     builders (nil / empty QUICFrames) the model computes the payload itself.
     Executable definitions only. *)
 From Coq Require Import List ZArith Bool.
-From V Require Import Gen.Params Wire.Varint PktProt.PktNum.
+From V Require Import Gen.Params Lib.Hex Wire.Varint Wire.Headers PktProt.PktNum.
 Import ListNotations.
 Open Scope Z_scope.
 
@@ -112,6 +112,17 @@ Definition peekPnLen (lens : list Z) (single base pn : Z) : Z :=
 (** ** wire.ExtendedHeader.GetLength for an Initial packet *)
 Definition hdrLen (dcid scid tokLen pnLen : Z) : Z :=
   1 + 4 + 1 + dcid + 1 + scid + pnLen + 2 + (vlen tokLen + tokLen).
+
+(** ** the serialised long header: packetPacker.getLongHeader fills a wire.ExtendedHeader
+    (type Initial, the connection's version, the packer's source connection ID, the current
+    destination connection ID, the token, the peeked packet number and its length),
+    appendInitialPacketPayload sets Length and calls ExtendedHeader.Append — C08's model
+    [Wire.Headers.append_ext] (class 0 = no error, bytes) *)
+Definition initialExt (ver : Z) (dcid scid token : list Z) (lf pn pnLen : Z) : exthdr :=
+  mkExt (mkHeader 0 H_PacketTypeInitial ver scid dcid lf token 0) 0 pnLen pn 0.
+
+Definition initialHeaderBytes (ver : Z) (dcid scid token : list Z) (lf pn pnLen : Z) : Z * list Z :=
+  append_ext (initialExt ver dcid scid token lf pn pnLen) ver.
 
 (** ** wire.CryptoFrame *)
 Definition maxDataLen (off m : Z) : Z :=
